@@ -56,7 +56,10 @@ func (o *OpenSpec) tableXML() string {
 				for k := g; k < g+c.span() && k < len(o.Grid); k++ {
 					w += o.Grid[k]
 				}
-				fmt.Fprintf(&b, `<w:tcPr><w:tcW w:w="%d" w:type="dxa"/>`, w)
+				b.WriteString(`<w:tcPr>`)
+				if !c.NoW { // w:tcW is optional; some producers write only the merge markers
+					fmt.Fprintf(&b, `<w:tcW w:w="%d" w:type="dxa"/>`, w)
+				}
 				if c.Span >= 1 { // 1 = the explicit <w:gridSpan w:val="1"/> some producers write on every cell
 					fmt.Fprintf(&b, `<w:gridSpan w:val="%d"/>`, c.Span)
 				}
